@@ -10,11 +10,11 @@
 //! out-of-range drains.
 
 pub mod adapters;
-pub mod types;
 
-use crate::core::{catch, inject_panic, shrink_list, Caught, Ctx, Tier, World, WorldInfo};
-use crate::ev;
-use crate::rng::Rng;
+
+use simcore::core::{catch, inject_panic, shrink_list, Caught, Ctx, Tier, World, WorldInfo};
+use simcore::ev;
+use simcore::rng::Rng;
 use adapters::{all_types, It, ReadIt, Sut, TypeDesc, WriteIt};
 use serde::{Deserialize, Serialize};
 
